@@ -9,6 +9,7 @@ CONSTANTS
   MaxAdds = 2
   MaxEnds = 100
   AtomicAdd = TRUE
+  ClosedRefuses = TRUE
   SplitGet = FALSE
   RecheckOnStore = TRUE
   StaleTimers = FALSE
